@@ -27,7 +27,11 @@ func parseCacheControl(ccHeader string) (cacheControl, error) {
 		} else {
 			directive = strings.ToLower(directive)
 		}
-		if directive == "no-cache" || directive == "no-store" || directive == "private" {
+		// no-cache and private can name fields (no-cache="set-cookie"): the response may then be reused except
+		// for those fields. Fields are not handled one by one here, so the argument forms count like the bare
+		// directive (RFC 9111 sections 5.2.2.4 and 5.2.2.7 allow that).
+		directiveName, _, _ := strings.Cut(directive, "=")
+		if directiveName == "no-cache" || directiveName == "no-store" || directiveName == "private" {
 			// A shared cache must not store a private response either.
 			cc.noCache = true
 		} else if after, ok := strings.CutPrefix(directive, "max-age="); ok {
